@@ -13,10 +13,18 @@ EQ = "error::ErrorQueue"
 
 
 def impl_body(u, self_contains, method):
+    """the method as the impl provides it, or the trait's provided (default) method when the impl leaves it out"""
     bs = u.impl_methods(EQ, method, self_contains)
-    if len(bs) != 1:
-        raise facts.AnchorLost("impl ErrorQueue for %s::%s (found %d)" % (self_contains, method, len(bs)))
-    return bs[0]
+    if len(bs) == 1:
+        return bs[0]
+    if not bs:
+        try:
+            d = u.body("scpi::error::ErrorQueue::" + method)
+        except (facts.AnchorLost, KeyError):
+            d = None
+        if d is not None and getattr(d, "mir", None) is not None:
+            return d
+    raise facts.AnchorLost("impl ErrorQueue for %s::%s (found %d)" % (self_contains, method, len(bs)))
 
 
 # ---- abstract containers -------------------------------------------------------------------------------------------
@@ -227,7 +235,16 @@ def container_models():
 
 
 def _is_overflow(v):
-    return "QueueOverflow" in M.err_codes(v) if not isinstance(v, SymV) else False
+    """v is the plain -350 entry: ErrorCode::QueueOverflow converted into an Error (no extended information - an entry
+    that merely has its code field overwritten keeps the device-dependent text of the error it displaces)"""
+    if isinstance(v, SymV) or "QueueOverflow" not in M.err_codes(v):
+        return False
+    if isinstance(v, AggV) and v.kind == "From::from":
+        return True
+    if isinstance(v, AggV) and v.kind.endswith("error::Error"):
+        ext = v.fields.get(1)
+        return isinstance(ext, EnumV) and ext.name == "None"
+    return False
 
 
 def _contents(q):
@@ -238,6 +255,8 @@ def _contents(q):
             out.append(v.id)
         elif _is_overflow(v):
             out.append("-350")
+        elif "QueueOverflow" in M.err_codes(v):
+            out.append("-350 patched into an older entry (its extended information is kept): %r" % (v,))
         else:
             out.append("?%r" % (v,))
     return out
@@ -277,6 +296,13 @@ def check_queues(R, rule_prefix="R12"):
         except facts.AnchorLost as e:
             R.anchor_lost(rule, str(e))
             continue
+        # trait-method calls on the queue itself (from provided methods or between methods) go to this impl
+        eng.redirect = {}
+        for m in ("push_back_error", "pop_front_error", "num_errors", "clear_errors", "is_empty"):
+            try:
+                eng.redirect["scpi::error::ErrorQueue::" + m] = impl_body(u, who, m).npath
+            except facts.AnchorLost:
+                pass
         bad = {m: [] for m in bodies}
         for cap in caps:
             for k in range(0, (cap if cap is not None else 4) + 1):
